@@ -4,10 +4,13 @@ from . import runprop
 KNOWN_SITE = "NullifyBurnAddress"   # known_findings.jsonl: C10-nullify-burn-errors-dropped
 
 
-def fault(ctx, scenarios, points, pairs):
+def fault(ctx, scenarios, points, pairs, blocks=None):
     found = False
     for sc in scenarios:
-        recs, summary = runprop.run(ctx, "fault", "scen:" + sc, ctx.seed, ["-kind", "both", "-points", str(points), "-pairs", str(pairs), "-prefix", "snapshot"], timeout=2400)
+        args = ["-kind", "both", "-points", str(points), "-pairs", str(pairs), "-prefix", "snapshot"]
+        if blocks:
+            args += ["-blocks", blocks]
+        recs, summary = runprop.run(ctx, "fault", "scen:" + sc, ctx.seed, args, timeout=2400)
         ctx.coverage.setdefault("distribution", {}).setdefault("fault_runs", []).append(dict(summary, scenario=sc))
         n = int(summary.get("faults_run", 0))
         ctx.coverage["evaluations"] = ctx.coverage.get("evaluations", 0) + n
@@ -41,6 +44,10 @@ def run(ctx):
                             "each fault is a distinct non-trivial case")
     ctx.proof_stage(extra_targets=["Lemmas/SyncLemmas.vo", "Lemmas/SitesC10.vo", "Refuted/C10.vo"])
     fault(ctx, ["corners"] if ctx.tier == "quick" else ["corners", "eras", "staking"], 70 if ctx.tier == "quick" else 500, 4 if ctx.tier == "quick" else 40)
+    # the one-time adjustment heights (mint at 432, burn of the mint at 433) and blocks that price held conversions
+    # with the averages (PIP-10): every operation of those blocks fails once
+    fault(ctx, ["align"], "all", 0, blocks="432,433")
+    fault(ctx, ["gaps"], "all", 0, blocks="117,121")
 
 
 def search(ctx, why):
